@@ -46,15 +46,22 @@ class timelimit(object):
         raise CaseTimeout('case exceeded %.0f s' % self.seconds)
 
     def __enter__(self):
+        # nesting: remember what is left of an enclosing limit and re-arm it on exit
+        self.outer_left, _ = signal.getitimer(signal.ITIMER_REAL)
+        self.t0 = time.time()
         self.old = signal.signal(signal.SIGALRM, self._handler)
         # re-fire every 50 ms after the first expiry: the library has bare 'except:' clauses that
         # would swallow a single exception and carry on looping
-        signal.setitimer(signal.ITIMER_REAL, self.seconds, 0.05)
+        secs = self.seconds if not self.outer_left else min(self.seconds, self.outer_left)
+        signal.setitimer(signal.ITIMER_REAL, max(secs, 1e-3), 0.05)
         return self
 
     def __exit__(self, *exc):
         signal.setitimer(signal.ITIMER_REAL, 0)
         signal.signal(signal.SIGALRM, self.old)
+        if self.outer_left:
+            left = self.outer_left - (time.time() - self.t0)
+            signal.setitimer(signal.ITIMER_REAL, max(left, 1e-3), 0.05)
         return False
 
 
